@@ -292,6 +292,20 @@ def replay(w):
             return {'reproduced': True, 'what': 'Monte-Carlo loop proposals: ' + '; '.join(bad), 'detail': {}}
     if not energies:
         return {'reproduced': False, 'what': 'no concrete energies in the witness', 'detail': {}}
+    if w.get('_scale') is None:
+        # the witness fixes the ORDER of the energies; the same scenario is replayed with the differences between the energies
+        # scaled down (improvements far below the printed precision of the progress line) as well as at the witness scale
+        last = None
+        for sc in (1.0, 1e-6, 1e-12):
+            w2 = dict(w, _scale=sc, energies=[energies[0] + (e - energies[0]) * sc for e in energies])
+            try:
+                last = replay(w2)
+            except Exception as e:
+                last = {'reproduced': False, 'what': 'replay failed: %r' % (e,), 'detail': {}}
+            if last['reproduced']:
+                last['what'] += ' (energy differences scaled by %g)' % sc
+                return last
+        return last
     trace = {'E': [], 'acc': [], 'choice_i': 0}
 
     class ScriptedE:
